@@ -369,3 +369,289 @@ fn d15_hash_seek_upgrade_request_returns() {
         Err(_) => panic!("create_proof did not return within 60 s"),
     }
 }
+
+/// D16 (C11, found by a defect-hunting sub-agent): a node whose index has 62 or more trailing
+/// one-bits — 2^64-1 is one of the varint boundaries C11 quantifies over — is a valid encoding;
+/// decoding it must give the value back, not panic inside flat_tree::parent (Node::new computed the
+/// parent index eagerly, and that function is not defined for such depths).
+#[test]
+fn d16_node_with_maximal_index_round_trips() {
+    use compact_encoding::CompactEncoding;
+    use hypercore::Node;
+    for index in [u64::MAX, (1u64 << 62) - 1, (1u64 << 63) - 1, (1u64 << 63) + (1u64 << 62) - 1, 7, 0] {
+        let mut bytes: Vec<u8> = Vec::new();
+        if index <= 0xfc {
+            bytes.push(index as u8);
+        } else {
+            bytes.push(0xff);
+            bytes.extend_from_slice(&index.to_le_bytes());
+        }
+        bytes.push(0); // length
+        bytes.extend_from_slice(&[9u8; 32]); // hash
+        let r = std::panic::catch_unwind(|| Node::decode(&bytes).map(|(n, rest)| (n, rest.len())));
+        let (node, left) = r.unwrap_or_else(|_| panic!("Node::decode panicked for index {index}")).expect("a valid encoding decodes");
+        assert_eq!(left, 0);
+        let mut out = vec![0u8; node.encoded_size().unwrap()];
+        node.encode(&mut out).unwrap();
+        assert_eq!(out, bytes, "index {index}");
+    }
+}
+
+/// D17 (C06 "a store written by the JavaScript implementation opens and is operated on", C11; the
+/// 2-byte hash was noticed early and wrongly judged unreachable): `Node::new_blank` built its hash as
+/// `vec![0, 32]` (two bytes) instead of 32 zero bytes.  A blank node announces 34 bytes and cannot be
+/// encoded; commit_truncation puts blank nodes into `unflushed` whenever a replayed truncation cuts
+/// through a subtree (JS `core.truncate(3)` of a 4-block core, entry still in the log), and the next
+/// flush panicked in flush_nodes ("Encoding u64 should not fail").
+#[tokio::test]
+async fn d17_replayed_truncation_through_a_subtree_flushes() {
+    use blake2::{digest::typenum::U32, Blake2b, Digest};
+    use compact_encoding::CompactEncoding;
+    let n = hypercore::Node::new_blank(4);
+    let mut buf = vec![0u8; n.encoded_size().unwrap()];
+    assert!(n.encode(&mut buf).is_ok(), "a blank node announces {} bytes but cannot be encoded", buf.len());
+
+    const TREE: [u8; 32] = [
+        0x9F, 0xAC, 0x70, 0xB5, 0x0C, 0xA1, 0x4E, 0xFC, 0x4E, 0x91, 0xC8, 0x33, 0xB2, 0x04, 0xE7, 0x5B, 0x8B, 0x5A, 0xAD, 0x8B, 0x58, 0x81, 0xBF, 0xC0, 0xAD, 0xB5, 0xEF, 0x38, 0xA3, 0x27,
+        0x5B, 0x9C,
+    ];
+    let d = Disk::new();
+    let kp = keys();
+    let secret = kp.secret.clone().unwrap();
+    let mut c = create(&d, kp).await;
+    c.append_batch([b"a", b"b", b"c", b"d"]).await.unwrap(); // flushed: 7 tree nodes, no log entries
+    drop(c);
+    let mut oplog = d.read_all(Store::Oplog).await;
+    assert_eq!(oplog.len(), 8192);
+    let tree = d.read_all(Store::Tree).await;
+    // JS core.truncate(3): roots 1 (blocks 0, 1) and 4 (block 2), fork 1
+    let mut h = Blake2b::<U32>::new();
+    h.update([2u8]);
+    for idx in [1u64, 4u64] {
+        let rec = &tree[idx as usize * 40..idx as usize * 40 + 40];
+        h.update(&rec[8..]);
+        h.update(idx.to_le_bytes());
+        h.update(&rec[..8]);
+    }
+    let tree_hash = h.finalize();
+    let mut signable = TREE.to_vec();
+    signable.extend_from_slice(&tree_hash);
+    signable.extend_from_slice(&3u64.to_le_bytes());
+    signable.extend_from_slice(&1u64.to_le_bytes());
+    let signature = hypercore::sign(&secret, &signable);
+    let mut entry: Vec<u8> = vec![2 | 4 | 8, 0, 1, 3, 3, 64];
+    entry.extend_from_slice(&signature.to_bytes());
+    entry.extend_from_slice(&[1, 3, 1]); // bitfield: drop, start 3, length 1
+    // current header bit, the way oplog.js decides it
+    let slot_bit = |s: usize| {
+        let b = &oplog[s * 4096..(s + 1) * 4096];
+        let combined = u32::from_le_bytes(b[4..8].try_into().unwrap());
+        let len = (combined >> 2) as usize;
+        (len != 0 && 8 + len <= 4096 && crc32fast::hash(&b[4..8 + len]) == u32::from_le_bytes(b[0..4].try_into().unwrap())).then_some(combined & 1 == 1)
+    };
+    let bit = match (slot_bit(0), slot_bit(1)) {
+        (Some(a), Some(b)) => a != b,
+        (Some(_), None) => false,
+        (None, Some(_)) => true,
+        _ => panic!("no valid header"),
+    };
+    let combined: u32 = ((entry.len() as u32) << 2) | bit as u32;
+    let mut zone = combined.to_le_bytes().to_vec();
+    zone.extend_from_slice(&entry);
+    let mut framed = crc32fast::hash(&zone).to_le_bytes().to_vec();
+    framed.extend_from_slice(&zone);
+    oplog.extend_from_slice(&framed);
+    d.write_raw(Store::Oplog, 0, &oplog).await;
+
+    let mut c = reopen(&d).await.unwrap();
+    assert_eq!(c.info().length, 3);
+    assert_eq!(c.get(2).await.unwrap(), Some(b"c".to_vec()));
+    // the first operation of the session flushes the tree: blank node 5 has to be written as zeros
+    let d2 = d.clone();
+    let r = tokio::spawn(async move {
+        let _keep = d2;
+        c.append(b"e").await.map(|_| c)
+    })
+    .await;
+    let c = r.expect("the flush after a replayed truncation panicked").unwrap();
+    assert_eq!(c.info().length, 4);
+    drop(c);
+    let mut c = reopen(&d).await.unwrap();
+    assert_eq!(c.info().length, 4);
+    assert_eq!(c.get(2).await.unwrap(), Some(b"c".to_vec()));
+    assert_eq!(c.get(3).await.unwrap(), Some(b"e".to_vec()));
+    assert_eq!(c.get(0).await.unwrap(), Some(b"a".to_vec()));
+}
+
+/// D18 (C01, found by four defect-hunting sub-agents independently): an empty block stays present
+/// and readable whatever is cleared around it.  `clear` punches its hole up to the next held block;
+/// when that is an empty block at the end of the data, the delete reaches the end of the file and
+/// both backends truncate it — the empty block's offset then lies beyond the end, and the
+/// zero-length read `get` still issued (and the zero-length delete a later `clear` issued) failed.
+#[tokio::test]
+async fn d18_empty_block_behind_a_cleared_tail() {
+    for disk in [false, true] {
+        let dir = tempdir_path("d18");
+        let mut c = if disk {
+            HypercoreBuilder::new(hypercore::Storage::new_disk(&dir, true).await.unwrap()).key_pair(keys()).build().await.unwrap()
+        } else {
+            HypercoreBuilder::new(hypercore::Storage::new_memory().await.unwrap()).key_pair(keys()).build().await.unwrap()
+        };
+        c.append(b"x").await.unwrap();
+        c.append(b"").await.unwrap();
+        assert_eq!(c.get(1).await.unwrap(), Some(vec![]));
+        c.clear(0, 1).await.unwrap();
+        assert!(c.has(1));
+        assert_eq!(c.get(1).await.expect("an empty block that is held must be readable"), Some(vec![]), "disk = {disk}");
+        assert_eq!(c.get(0).await.unwrap(), None);
+        // second manifestation: a zero-length delete beyond the truncated end
+        let mut c = HypercoreBuilder::new(hypercore::Storage::new_memory().await.unwrap()).key_pair(keys()).build().await.unwrap();
+        c.append_batch([&b"a"[..], &b"b"[..], &b""[..], &b""[..]]).await.unwrap();
+        c.clear(1, 2).await.unwrap();
+        c.clear(3, 4).await.expect("clearing an empty block behind a cleared tail");
+        assert_eq!(c.get(2).await.unwrap(), Some(vec![]));
+        assert_eq!(c.get(3).await.unwrap(), None);
+        assert_eq!(c.get(0).await.unwrap(), Some(b"a".to_vec()));
+        let _ = std::fs::remove_dir_all(&dir);
+    }
+}
+
+fn tempdir_path(tag: &str) -> std::path::PathBuf {
+    let mut p = std::env::temp_dir();
+    p.push(format!("hc_triage_{tag}_{}", std::process::id()));
+    let _ = std::fs::remove_dir_all(&p);
+    std::fs::create_dir_all(&p).unwrap();
+    p
+}
+
+/// D21 (C14 / C03, found by a defect-hunting sub-agent): the answer to a request with a seek must not
+/// depend on which tree nodes happen to be in memory (node cache on or off, flushed or not).
+/// seek_untrusted_tree and seek_from_head went on computing with an unadjusted byte count when a
+/// node was missing in the first pass, and returned a position while read instructions were
+/// pending — so cache-off cores served a different proof (or a proof where cache-on cores refuse).
+#[tokio::test]
+async fn d21_seek_answers_do_not_depend_on_the_node_cache() {
+    use hypercore::{CacheOptionsBuilder, RequestSeek};
+    async fn run(cache: bool, which: u8) -> String {
+        let d = Disk::new();
+        let mut b = HypercoreBuilder::new(d.storage().await).key_pair(fixed_keys());
+        if cache {
+            b = b.node_cache_options(CacheOptionsBuilder::new());
+        }
+        let mut c = b.build().await.unwrap();
+        match which {
+            0 => {
+                c.append(b"a").await.unwrap();
+                c.get(0).await.unwrap();
+                format!("{:?}", c.create_proof(Some(RequestBlock { index: 0, nodes: 0 }), None, Some(RequestSeek { bytes: 1 }), None).await.map(|p| p.map(|p| (p.block.map(|b| b.nodes.len()), p.seek.map(|s| s.nodes.iter().map(|n| format!("{n:?}")).collect::<Vec<_>>())))))
+            }
+            1 => {
+                c.append_batch([b"a", b"b", b"c", b"d"]).await.unwrap();
+                c.append_batch([b"e", b"f", b"g", b"h"]).await.unwrap();
+                c.get(4).await.unwrap();
+                format!("{:?}", c.create_proof(Some(RequestBlock { index: 4, nodes: 2 }), None, Some(RequestSeek { bytes: 6 }), None).await.map(|p| p.map(|p| (p.block.map(|b| b.nodes.len()), p.seek.map(|s| s.nodes.len())))))
+            }
+            _ => {
+                c.append_batch([b"a", b"b", b"c", b"d"]).await.unwrap();
+                c.append(b"e").await.unwrap();
+                c.create_proof(None, None, None, Some(RequestUpgrade { start: 0, length: 5 })).await.unwrap();
+                format!("{:?}", c.create_proof(None, None, Some(RequestSeek { bytes: 1 }), Some(RequestUpgrade { start: 4, length: 1 })).await.map(|p| p.map(|p| (p.seek.map(|s| s.nodes.len()), p.upgrade.map(|u| u.nodes.len())))))
+            }
+        }
+    }
+    for which in 0..3u8 {
+        let off = run(false, which).await;
+        let on = run(true, which).await;
+        assert_eq!(off, on, "scenario {which}: node cache off vs on");
+    }
+}
+
+fn fixed_keys() -> PartialKeypair {
+    let k = ed25519_dalek::SigningKey::from_bytes(&[7u8; 32]);
+    PartialKeypair { public: k.verifying_key(), secret: Some(k) }
+}
+
+/// D19 (C12, found by a defect-hunting sub-agent): after make_read_only returns — for any prior
+/// history, crashes inside an earlier make_read_only included — no storage file contains the secret
+/// key.  A crash between the two header writes of the trace-clearing flush recovers a read-only core
+/// (the newer slot has no secret) while the other slot still holds the previous header with the key;
+/// make_read_only on the recovered core saw no secret in memory, returned Ok(false) and touched
+/// nothing, so no call could ever scrub the key.
+#[tokio::test]
+async fn d19_make_read_only_scrubs_a_stale_slot() {
+    fn contains(hay: &[u8], needle: &[u8]) -> bool {
+        hay.windows(needle.len()).any(|w| w == needle)
+    }
+    for n in 0..3u8 {
+        for k in 1..3usize {
+            let d = Disk::new();
+            let kp = keys();
+            let seed = kp.secret.as_ref().unwrap().to_bytes();
+            let mut c = create(&d, kp).await;
+            for i in 0..n {
+                c.append(&[i]).await.unwrap();
+            }
+            d.crash_after(k);
+            let _ = c.make_read_only().await;
+            drop(c);
+            d.heal();
+            let mut c = reopen(&d).await.unwrap();
+            let first = c.make_read_only().await.unwrap();
+            let second = c.make_read_only().await.unwrap();
+            assert!(!second, "a repeated call reports that nothing changed");
+            let _ = first;
+            assert!(!c.info().writeable);
+            drop(c);
+            for st in [Store::Oplog, Store::Tree, Store::Bitfield, Store::Data] {
+                let bytes = d.read_all(st.clone()).await;
+                assert!(!contains(&bytes, &seed), "{n} appends, crash after {k} operations of make_read_only: store {st} still contains the secret key after make_read_only returned");
+            }
+            let mut c = reopen(&d).await.unwrap();
+            assert!(!c.info().writeable);
+            for i in 0..n as u64 {
+                assert_eq!(c.get(i).await.unwrap(), Some(vec![i as u8]));
+            }
+        }
+    }
+}
+
+/// D20 (C09 "after such a call the core is still usable", found by three defect-hunting sub-agents):
+/// a proof whose hash section is the single node the replica already holds, with the genuine hash
+/// and a forged length, was accepted — verify_proof compared the recomputed (here: the supplied)
+/// node with the stored one by hash only — and the forged node replaced the stored one: every
+/// later read of that block, and the byte offsets of all blocks to its right, were wrong.
+#[tokio::test]
+async fn d20_single_node_hash_proof_with_a_forged_length_is_refused() {
+    use compact_encoding::CompactEncoding;
+    use hypercore::{DataHash, Node};
+    let w = Disk::new();
+    let kp = keys();
+    let public = kp.public;
+    let mut writer = create(&w, kp).await;
+    writer.append(b"abc").await.unwrap();
+    writer.append(b"de").await.unwrap();
+    let r = Disk::new();
+    let mut replica = HypercoreBuilder::new(r.storage().await).key_pair(PartialKeypair { public, secret: None }).build().await.unwrap();
+    for i in 0..2u64 {
+        let p = writer.create_proof(Some(RequestBlock { index: i, nodes: 0 }), None, None, Some(RequestUpgrade { start: 0, length: 2 })).await.unwrap().unwrap();
+        // the second proof repeats the upgrade, which is accepted as a no-op
+        let _ = replica.verify_and_apply_proof(&p).await;
+    }
+    assert_eq!(replica.get(0).await.unwrap(), Some(b"abc".to_vec()));
+    assert_eq!(replica.get(1).await.unwrap(), Some(b"de".to_vec()));
+    // the genuine leaf 0, with its length changed from 3 to 2
+    let honest = writer.create_proof(None, Some(RequestBlock { index: 0, nodes: 0 }), None, None).await.unwrap().unwrap();
+    let leaf = honest.hash.as_ref().unwrap().nodes[0].clone();
+    let mut bytes = vec![0u8; leaf.encoded_size().unwrap()];
+    leaf.encode(&mut bytes).unwrap();
+    assert_eq!(&bytes[..2], &[0, 3]);
+    bytes[1] = 2;
+    let (forged, _) = Node::decode(&bytes).unwrap();
+    let proof = Proof { fork: 0, block: None, hash: Some(DataHash { index: 0, nodes: vec![forged] }), seek: None, upgrade: None };
+    let res = replica.verify_and_apply_proof(&proof).await;
+    assert!(!matches!(res, Ok(true)), "a node with a forged length was accepted");
+    assert_eq!(replica.get(0).await.expect("block 0 must still be readable"), Some(b"abc".to_vec()));
+    assert_eq!(replica.get(1).await.expect("block 1 must still be readable"), Some(b"de".to_vec()));
+    // and the honest node is still accepted
+    assert!(replica.verify_and_apply_proof(&honest).await.is_ok());
+}
